@@ -388,6 +388,21 @@ def rules(ck, P):
         counts = mvt.exit_counts(P, b, dec)
         ck.check(counts == {1}, "R-COMMIT-ORDER", b["q"] + "|f-empty-index-rejected", "every successful decode of a block index goes through the brotli decoder (which rejects the empty buffer of an unfinished file)",
                  "a block index can be returned without passing the buffer through the brotli decoder (decoder calls per successful path: %s): the empty block-index range of an interrupted write opens as a valid, empty container" % sorted(counts), ir.loc(b))
+    # ... and that decoder is one that reports an unfinished stream: brotli's whole-stream function BrotliDecompress (or the pull
+    # Decompressor drained with read_to_end) fails on empty / truncated input; the push DecompressorWriter reports a missing end of stream
+    # only from close() / into_inner(), which write_all never calls, so a truncated or empty buffer decodes to Ok
+    db = [x for x in P.bodies if x["q"].endswith("utils::compression::decompress_brotli")]
+    if ck.anchor("R-COMMIT-ORDER", "decompress_brotli", db, 1):
+        b = db[0]
+        used = sorted({(n.get("q") or "") for n in ir.walk_nodes(b["body"]) if n.get("k") in ("call", "mcall", "path", "struct") and (n.get("q") or "").startswith("brotli")})
+        whole = any(q.endswith("BrotliDecompress") for q in used)
+        pull = any("Decompressor" in q and "Writer" not in q for q in used) and ir.contains(b["body"], lambda y: y.get("k") == "mcall" and y.get("name") == "read_to_end")
+        push = any("DecompressorWriter" in q for q in used)
+        closed = ir.contains(b["body"], lambda y: y.get("k") == "mcall" and y.get("name") in ("close", "into_inner") and "Decompressor" in ((ir.strip(y["recv"]).get("t") or "") + (y.get("q") or "")))
+        ck.check((whole or pull) and not push or (push and closed), "R-COMMIT-ORDER", b["q"] + "|f-truncation-reported",
+                 "the brotli decoder behind the block / tile index reports an unfinished stream (whole-stream BrotliDecompress, or a pull decoder drained to the end)",
+                 "decompress_brotli uses %s: an empty or truncated buffer is not reported as an error (the push decoder only notices a missing end of stream in close()), "
+                 "so the empty block index of an interrupted write decodes to an empty index and the file opens" % [q.rsplit("::", 1)[-1] for q in used], ir.loc(b))
 
 
 def _root(n):
